@@ -498,12 +498,9 @@ Proof.
   - (* PIkTaken *) injection H as <-. e5_frame HI Hst Tk.
   - (* PIkLookup *)
     destruct hit as [e|].
-    + destruct (match e_kind e, rq_kind (t_req th) with
-                | KCreate, KCreate | KRevert, KRevert | KSaveMeta, KSaveMeta | KDelMeta, KDelMeta => true
-                | _, _ => false end).
-      * injection H as <-. apply e5_Pu_inv, e5_Pu_finish; [exact HI | exact Hst].
-      * destruct (is_tx_kind (rq_kind (t_req th)));
-          injection H as <-; apply e5_Pu_inv, e5_Pu_finish; [exact HI | exact Hst | exact HI | exact Hst].
+    + (* replay of the request's own outcome / refusal of a reused key: both are a [finish] of an idle thread *)
+      destruct (is_outcome_of (t_req th) e);
+        injection H as <-; apply e5_Pu_inv, e5_Pu_finish; [exact HI | exact Hst | exact HI | exact Hst].
     + injection H as <-. apply e5_Pu_inv, e5_Pu_enter_exec; [exact HI | exact Hst | exact Egen | auto].
   - (* PRefBusy *) injection H as <-. apply e5_Pu_inv, e5_Pu_finish; [exact HI | exact Hst].
   - (* PRefTaken *) injection H as <-. e5_frame HI Hst Tk.
@@ -894,9 +891,7 @@ Proof.
       solve [ eapply Hfr; [exact H1 | simpl; discriminate] | eapply Hrun; exact H1 ].
   - (* PIkLookup *)
     destruct hit as [e|].
-    + destruct (match e_kind e, rq_kind (t_req th) with
-                | KCreate, KCreate | KRevert, KRevert | KSaveMeta, KSaveMeta | KDelMeta, KDelMeta => true
-                | _, _ => false end); [|destruct (is_tx_kind (rq_kind (t_req th)))];
+    + destruct (is_outcome_of (t_req th) e);
         injection H as <-; exfalso; (eapply Hfr; [exact H1 | simpl; discriminate]).
     + injection H as <-; exfalso. eapply Hex; exact H1.
   - (* PRefLookup *)
@@ -1128,7 +1123,7 @@ Qed.
 (* ---- schedules for the non-vacuity examples (Properties/C02_cancel.v) ------------------------------------- *)
 Definition e5_cr0 (ps : list posting) : request :=
   {| rq_kind := KCreate; rq_ik := 0%N; rq_ref := 0%N; rq_dry := false; rq_postings := ps; rq_unb := false;
-     rq_revert := 0; rq_target_tx := None |}.
+     rq_revert := 0; rq_target_tx := None; rq_meta := 0%N |}.
 (* request 0 funds account 1 with 100 and completes *)
 Definition e5_fund : list action :=
   [AStart 0 (e5_cr0 [(0%N, 1%N, 100%Z)])] ++ repeat (AResume 0) 8 ++ [APersistOk] ++ repeat (AResume 0) 3.
@@ -1136,7 +1131,7 @@ Definition e5_rq1 : request := e5_cr0 [(1%N, 2%N, 40%Z)].
 (* request 2 carries an idempotency key and a reference: both must be released when it gives up *)
 Definition e5_rq2 : request :=
   {| rq_kind := KCreate; rq_ik := 7%N; rq_ref := 9%N; rq_dry := false; rq_postings := [(1%N, 3%N, 100%Z)];
-     rq_unb := false; rq_revert := 0; rq_target_tx := None |}.
+     rq_unb := false; rq_revert := 0; rq_target_tx := None; rq_meta := 0%N |}.
 Definition e5_rq3 : request := e5_cr0 [(1%N, 4%N, 50%Z)].
 (* request 1 holds the locks of accounts 1, 2; request 2 is about to ask for its locks (parked at "resolved") *)
 Definition e5_sched_pre : list action :=
@@ -1171,5 +1166,5 @@ Definition e5_rf_ik : list action := e5_fund ++ [AStart 1 e5_sp1; AStart 2 e5_rq
 (* a SaveMeta (key 5) on the missing transaction 7, parked at "ik.lookup" (miss) while request 1 holds *)
 Definition e5_sm : request :=
   {| rq_kind := KSaveMeta; rq_ik := 5%N; rq_ref := 0%N; rq_dry := false; rq_postings := []; rq_unb := false;
-     rq_revert := 0; rq_target_tx := Some 7 |}.
+     rq_revert := 0; rq_target_tx := Some 7; rq_meta := 0%N |}.
 Definition e5_rf_sm : list action := e5_fund ++ [AStart 1 e5_sp1; AResume 1; AStart 3 e5_sm; AResume 3].
